@@ -19,6 +19,7 @@ RULE = ("cases: ACL programs (0..12 items) whose ACEs come from a small pool and
         "refsem) - hence every first-match decision is unchanged for all packets; cross-checked by boundary "
         "packet sampling; (4) shading() afterwards is empty and a second removal returns {} and changes "
         "nothing. Non-trivial: at least one ACE was removed; distinct by canonical program + skip")
+RULE += ". Directed classes added after the seeded-change rounds: C03's derived pairs embedded in ACLs (incl. the 17-bit class with the raised limit); query - edit the covering group in place - remove; a group below one non-contiguous wildcard"
 ASSUMPTIONS = ["native spelling per platform so that text comparison is meaningful",
                "refsem packet semantics; k<=3 non-contiguous bits; <=4 group members"]
 
